@@ -46,7 +46,7 @@ def run(ctx):
         n = {"KQ": 1, "KR": 1}.get(v, len(v) - 1)
         slices = {1: 64, 2: 1792, 3: 1792}[n]
         r2 = ctx.tlc("Families", "Families_search.cfg", env={"VERIF_FAMILY": "mate", "VERIF_VARIANT": v, "VERIF_FILE": 0, "VERIF_EDGE": 0 if n < 3 else 1,
-                     "VERIF_NEAR": 0 if n < 3 else 1, "VERIF_HM": 0, "VERIF_EXTRA": "", "VERIF_SLICE": (ctx.seed * 11 + i) % slices, "VERIF_SLICES": slices,
+                     "VERIF_NEAR": 0 if n < 3 else 1, "VERIF_HM": 0, "VERIF_EXTRA": "", "VERIF_EXTRA2": "", "VERIF_SLICE": (ctx.seed * 11 + i) % slices, "VERIF_SLICES": slices,
                      "VERIF_KEYS": ctx.keys()}, workers=NCPU, timeout=3000, name="mirror-fam-" + v)
         if ctx.tlc_hard_errors(r2) or r2["violated"]:
             raise ToolError("TLC failed generating material family %s: %s" % (v, (r2["errors"] + r2["violated"])[:3]))
